@@ -16,6 +16,7 @@ from .types import (
     TInt,
     TList,
     TMap,
+    TOMap,
     TOpt,
     TReal,
     TRec,
@@ -177,6 +178,11 @@ class ExprMixin:
             return v
         if isinstance(v, SV) and v.ty == TStr:
             return v
+        if isinstance(v, SV) and isinstance(v.ty, TOpt) and v.ty.elem == TStr:
+            # str(None) would silently give 'None': require a value
+            self.oblige("attr", v.ty.is_some(v), self.cur_node, "None formatted into a string")
+            self.assume(v.ty.is_some(v))
+            return v.ty.val(v)
         if isinstance(v, int) and not isinstance(v, bool):
             return str(v)
         if isinstance(v, SV) and v.ty == TInt:
@@ -501,6 +507,12 @@ class ExprMixin:
                 if r is not False:
                     acc = r if acc is False else (acc | r)
             return acc
+        if isinstance(container, SV) and isinstance(container.ty, TOMap):
+            return self.omap_dom(container).contains(self._elem(x, container.ty.key))
+        if isinstance(container, SV) and isinstance(container.ty, TList):
+            from . import specfn as _sf
+
+            return _sf.list_elems(container).contains(self._elem(x, container.ty.elem))
         if isinstance(container, (str, bytes)) and not isinstance(x, SV):
             return x in container
         if isinstance(container, (str, bytes)):
@@ -601,6 +613,11 @@ class ExprMixin:
                 self.oblige("attr", ty.is_some(obj), node, "subscript of None")
                 self.assume(ty.is_some(obj))
                 return self.get_item(ty.val(obj), idx, node)
+            if isinstance(ty, TOMap):
+                return self.omap_get(obj, idx, node)
+            if isinstance(ty, TTuple) and isinstance(idx, slice):
+                n = len(ty.elems)
+                return tuple(ty.get(obj, i) for i in range(n)[idx])
             if isinstance(ty, TMap):
                 k = lift(idx, ty.key) if not isinstance(idx, (tuple, list)) else self.lift_like(idx, ty.key)
                 if not self.branch(obj.contains(k)):
@@ -668,6 +685,9 @@ class ExprMixin:
             raise Unsupported("nested comprehension")
         g = e.generators[0]
         it = self.iterable_view(self.eval(g.iter))
+        vw = self.as_view(it) if not isinstance(it, (tuple, list)) else None
+        if vw is not None and (vw.what != "seq" or kind in ("dict", "list")):
+            return self.view_comprehension(e, kind, g, vw)
         if isinstance(it, (tuple, list)):
             out = []
             self.frames.append({})
@@ -777,6 +797,8 @@ class ExprMixin:
             return d
         if isinstance(obj, SV) and isinstance(obj.ty, TMap):
             return self.map_store(obj, idx, v)
+        if isinstance(obj, SV) and isinstance(obj.ty, TOMap):
+            return self.omap_store(obj, idx, v)
         if isinstance(obj, SV) and isinstance(obj.ty, (TRef, TRec)):
             m = self.find_method_for_type(obj.ty, "__setitem__")
             if m:
